@@ -1600,3 +1600,257 @@ Proof.
     rewrite N3 in N2. inversion N2; subst. lia.
   - eauto.
 Qed.
+
+(* ================= soundness of the oracle's handle-result clauses ================= *)
+Definition res_ok (tm : timer) : Prop :=
+  match k_pc tm with
+  | PDone r => match k_kind tm with KAfter => r <> RUnit | _ => r = RUnit end
+  | _ => True
+  end.
+
+Lemma poll_tm_res_ok : forall t st tm, timer_ok t tm -> res_ok tm -> res_ok (poll_tm t st tm).
+Proof.
+  intros t st tm TK H. unfold poll_tm. unfold timer_ok in TK. destruct TK as (_ & TK).
+  destruct (k_pc tm) eqn:P; auto.
+  - unfold res_ok; simpl. destruct (k_kind tm); simpl; auto.
+  - destruct (elapsed t D); auto. unfold res_ok; simpl. auto.
+  - destruct TK as (K & _). unfold res_ok; simpl. destruct (is_active st); simpl; auto. rewrite K. auto.
+  - destruct (elapsed t D); auto.
+    destruct (k_kind tm) eqn:K; try destruct (accepts st); unfold res_ok; simpl; rewrite ?K; auto; congruence.
+Qed.
+
+Lemma res_ok_run : forall ls t pk i tm, nth_error (timers (run ls (init t pk))) i = Some tm -> res_ok tm.
+Proof.
+  induction ls using rev_ind; intros t pk i tm' N'.
+  - destruct i; discriminate.
+  - rewrite run_snoc in N'. destruct (Inv1_run ls t pk) as (TO & _).
+    destruct (step_timer _ _ _ _ N') as [N|[(k & d & -> & -> & ->)|[(tm & -> & N & F & ->)|(tm & -> & N & ->)]]];
+      eauto; try exact I.
+    apply poll_tm_res_ok; eauto.
+Qed.
+
+(* the exit record is either unchanged or written with the current time *)
+Lemma step_exit : forall s l,
+  g_exit (tgt (step s l)) = g_exit (tgt s)
+  \/ exists r o, g_exit (tgt (step s l)) = Some (r, o, now s).
+Proof.
+  intros s l.
+  destruct (step_tgt s l) as
+    [(i & tm & w & F & TG)|[(TG & NF)|[(-> & TG)|[(r & -> & TG)|[(-> & TG)|[(-> & TG)|[(-> & TG)|(-> & TG)]]]]]]]; rewrite TG; auto.
+  - destruct w; simpl; auto.
+    + destruct (tgt_stop_shape (RExitAfter (k_dur tm / ms)) (Some i) (tgt s)) as (_ & _ & _ & _ & E & _). auto.
+    + destruct (tgt_kill_shape (Some i) (tgt s)) as (_ & _ & _ & _ & E & _). auto.
+  - unfold tgt_poll. destruct (g_status (tgt s)); auto;
+      destruct (g_kill (tgt s)); simpl; eauto; destruct (g_stop (tgt s)) as [[? ?]|]; simpl; eauto;
+      destruct (g_mbox (tgt s)) as [|[? ?|] ?]; simpl; eauto.
+  - destruct (tgt_stop_shape r None (tgt s)) as (_ & _ & _ & _ & E & _). auto.
+  - destruct (tgt_kill_shape None (tgt s)) as (_ & _ & _ & _ & E & _). auto.
+  - unfold tgt_drain. destruct (accepts _); auto.
+  - unfold tgt_start. destruct (g_status (tgt s)); auto.
+  - unfold tgt_post_stop. destruct (g_status (tgt s)); auto. destruct (g_stop (tgt s)) as [[? ?]|]; simpl; eauto.
+Qed.
+
+(* every accepted timer message was accepted before the target left the active states and
+   before it exited *)
+Definition sent_bounds (s : state) : Prop :=
+  forall e k, In e (effs s) -> e_what e = ESent k ->
+    (forall tl, g_left (tgt s) = Some tl -> e_time e <= tl)
+    /\ (forall r o te, g_exit (tgt s) = Some (r, o, te) -> e_time e <= te).
+
+Lemma sent_bounds_step : forall s l, Inv2 s -> sent_bounds s -> sent_bounds (step s l).
+Proof.
+  intros s l ((TO & EO & _) & OK) SB e k IN W.
+  assert (OLD : In e (effs s) -> e_time e <= now s) by (intro X; apply (EO _ X)).
+  assert (CASE : In e (effs s) \/ (exists i tm, fires s l i tm (ESent k) /\ e_time e = now s)).
+  { destruct (step_effs s l) as [E|(i & tm & w & F & E)]; rewrite E in IN; auto.
+    apply in_app_or in IN. destruct IN as [IN|[<-|[]]]; auto. simpl in W. subst w. right. eauto. }
+  destruct CASE as [INO|(i & tm & (-> & N & PE) & T)].
+  - destruct (SB _ _ INO W) as (SL & SE). split.
+    + intros tl GL. destruct (step_left s l) as [EL|(_ & L1 & _)].
+      * rewrite EL in GL. auto.
+      * rewrite L1 in GL. inversion GL; subst. auto.
+    + intros r o te GE. destruct (step_exit s l) as [EE|(r' & o' & EE)].
+      * rewrite EE in GE. eauto.
+      * rewrite EE in GE. inversion GE; subst. auto.
+  - apply poll_eff_sent_accepts in PE.
+    assert (LN : g_left (tgt s) = None).
+    { destruct (ok_left _ OK) as ((_ & H2) & _). apply H2. pose proof (ok_started _ OK).
+      unfold accepts, is_active in *. destruct (g_status (tgt s)); simpl in *; try discriminate; auto; congruence. }
+    assert (EN : g_exit (tgt s) = None).
+    { destruct (g_exit (tgt s)) eqn:GE; auto. exfalso.
+      assert (X : g_exit (tgt s) <> None) by congruence. apply (ok_exit_st _ OK) in X. rewrite X in PE. discriminate. }
+    rewrite T. split.
+    + intros tl GL. destruct (step_left s (Poll i)) as [EL|(_ & L1 & _)].
+      * rewrite EL, LN in GL. discriminate.
+      * rewrite L1 in GL. inversion GL; subst. lia.
+    + intros r o te GE. destruct (step_exit s (Poll i)) as [EE|(r' & o' & EE)].
+      * rewrite EE, EN in GE. discriminate.
+      * rewrite EE in GE. inversion GE; subst. lia.
+Qed.
+
+Lemma sent_bounds_run : forall ls t pk, sent_bounds (run ls (init t pk)).
+Proof.
+  induction ls using rev_ind; intros.
+  - intros e k [].
+  - rewrite run_snoc. apply sent_bounds_step; auto. apply Inv2_run.
+Qed.
+
+(* the numbers a timer has had accepted are 1, 2, ..., k_sent IN THIS ORDER *)
+Definition ks_eff (i : nat) (es : list eff) : list N :=
+  map snd (filter (fun p => Nat.eqb i (fst p)) (pairs es)).
+Definition nseq (n : N) : list N := map N.of_nat (seq 1 (N.to_nat n)).
+
+Lemma nseq_succ : forall n, nseq (n + 1) = nseq n ++ [n + 1].
+Proof.
+  intros. unfold nseq. replace (N.to_nat (n + 1)) with (S (N.to_nat n)) by lia.
+  rewrite seq_S, map_app. simpl. f_equal. f_equal. lia.
+Qed.
+
+Definition seq_ok (s : state) : Prop :=
+  forall i, ks_eff i (effs s) = match nth_error (timers s) i with Some tm => nseq (k_sent tm) | None => [] end.
+
+Lemma timers_len_step : forall s l, (length (timers s) <= length (timers (step s l)))%nat.
+Proof.
+  intros. destruct l; unfold step; simpl; auto.
+  - destruct (nth_error (timers s) i); auto. unfold poll_timer. destruct (poll_eff _ _ _); simpl; rewrite upd_length; auto.
+  - destruct (nth_error (timers s) i); auto. destruct (finished _); simpl; rewrite ?upd_length; auto.
+  - rewrite app_length. simpl. lia.
+Qed.
+
+Lemma seq_ok_step : forall s l, Inv1 s -> seq_ok s -> seq_ok (step s l).
+Proof.
+  intros s l (TO & EO & ND & SC) SQ i.
+  destruct (step_effs s l) as [E|(i0 & tm0 & w & (-> & N0 & PE) & E)].
+  - rewrite E, SQ.
+    destruct (nth_error (timers (step s l)) i) as [tm'|] eqn:N'.
+    + destruct (step_timer _ _ _ _ N') as [N|[(k & d & -> & -> & ->)|[(tm & -> & N & F & ->)|(tm & -> & N & ->)]]].
+      * rewrite N. auto.
+      * assert (X : nth_error (timers s) (length (timers s)) = None) by (apply nth_error_None; lia).
+        rewrite X. reflexivity.
+      * rewrite N. reflexivity.
+      * rewrite N. f_equal.
+        destruct (poll_eff (now s) (g_status (tgt s)) tm) eqn:PE.
+        -- exfalso. unfold step in E. rewrite N in E. unfold poll_timer in E. rewrite PE in E. simpl in E.
+           apply (f_equal (@length eff)) in E. rewrite app_length in E. simpl in E. lia.
+        -- unfold poll_eff in PE. unfold poll_tm. destruct (k_pc tm); auto;
+             try (destruct (elapsed (now s) D); auto; discriminate);
+             try (destruct (is_active (g_status (tgt s))); auto).
+    + destruct (nth_error (timers s) i) eqn:N; auto. exfalso.
+      apply nth_some_lt in N. apply nth_error_None in N'. pose proof (timers_len_step s l). lia.
+  - destruct (fire_eff_ok _ _ _ _ (TO _ _ N0) PE) as (NI & OK & SK & NK).
+    rewrite E. unfold ks_eff. rewrite pairs_snoc. cbn [e_what e_tid].
+    destruct (Nat.eq_dec i i0) as [->|NE].
+    + rewrite (poll_nth _ _ _ N0). pose proof (SQ i0) as S0. rewrite N0 in S0. unfold ks_eff in S0.
+      destruct w as [k| | |]; rewrite ?app_nil_r.
+      * destruct (SK k eq_refl) as (-> & S1 & _). rewrite filter_app, map_app, S0. simpl.
+        rewrite Nat.eqb_refl. simpl. rewrite S1, nseq_succ. reflexivity.
+      * rewrite S0, NK by (intros; discriminate). reflexivity.
+      * rewrite S0, NK by (intros; discriminate). reflexivity.
+      * rewrite S0, NK by (intros; discriminate). reflexivity.
+    + rewrite (poll_nth_neq s i0 i NE). rewrite <- (SQ i). unfold ks_eff.
+      destruct w; rewrite ?app_nil_r; auto.
+      rewrite filter_app, map_app. simpl. destruct (Nat.eqb_spec i i0); [congruence|]. simpl. rewrite app_nil_r. auto.
+Qed.
+
+Lemma seq_ok_run : forall ls t pk, seq_ok (run ls (init t pk)).
+Proof.
+  induction ls using rev_ind; intros.
+  - intro i. destruct i; reflexivity.
+  - rewrite run_snoc. apply seq_ok_step; auto. apply Inv1_run.
+Qed.
+
+Lemma ks_of_pairs : forall i log,
+  ks_of i log = map snd (filter (fun p => Nat.eqb i (fst p)) (log_pairs log)).
+Proof.
+  induction log as [|[[j k] t] log IH]; simpl; auto. unfold ks_of in *. simpl.
+  destruct (Nat.eqb i j); simpl; rewrite IH; auto.
+Qed.
+
+Lemma prefix_from : forall l r a m, l ++ r = map N.of_nat (seq a m) -> is_prefix_from (N.of_nat a) l = true.
+Proof.
+  induction l; simpl; intros; auto. destruct m; simpl in H; [discriminate|]. inversion H; subst.
+  rewrite N.eqb_refl. simpl. replace (N.of_nat a0 + 1) with (N.of_nat (S a0)) by lia. eapply IHl; eauto.
+Qed.
+
+Lemma check_all_res_safe_map : forall log ex lf tis tms c0,
+  map statics tms = map ti_statics tis ->
+  (forall i tm ti, nth_error tms i = Some tm -> nth_error tis i = Some ti ->
+     check_res_safe log ex lf (c0 + i) ti (hres_of tm) = true) ->
+  check_all_res_safe log ex lf c0 tis (map hres_of tms) = true.
+Proof.
+  induction tis; destruct tms; simpl; intros; try discriminate; auto.
+  inversion H. pose proof (H0 0%nat t a eq_refl eq_refl) as H1. rewrite Nat.add_0_r in H1. rewrite H1. simpl.
+  apply IHtis; auto. intros i tm ti N1 N2. specialize (H0 (S i) tm ti N1 N2). rewrite Nat.add_succ_r in H0. auto.
+Qed.
+
+(* the handle-result clauses of the executable oracle accept every run of the model's driver *)
+Theorem oracle_sound_results : forall pk gt ops, check_C12_results ops (observe pk gt ops) = true.
+Proof.
+  intros pk gt ops. unfold check_C12_results, observe.
+  pose proof (exec_is_run pk gt (ops ++ [OSettle])) as ER.
+  assert (SC : map statics (timers (d_s (fst (exec pk gt (ops ++ [OSettle]))))) = map ti_statics (scan ops 0 [])).
+  { unfold exec, exec_op. rewrite <- (scan_settle ops 0 []). generalize FUEL. intro f. apply exec_scan; auto. }
+  destruct (exec pk gt (ops ++ [OSettle])) as (d, pr). cbn [fst] in *. cbn [o_log o_exit o_left o_res].
+  set (s := d_s d) in *. set (ls := rev (d_ls d)) in *.
+  destruct (Inv2_run ls 0 pk) as ((TO & EO & ND & SCm) & OK).
+  pose proof (born_ok_run ls 0 pk) as BO. pose proof (sent_bounds_run ls 0 pk) as SB.
+  pose proof (seq_ok_run ls 0 pk) as SQ. pose proof (res_ok_run ls 0 pk) as RO.
+  rewrite <- ER in *.
+  apply check_all_res_safe_map; auto. intros i tm ti N NT. simpl (0 + i)%nat.
+  assert (ST : ti_statics ti = statics tm).
+  { assert (X : nth_error (map ti_statics (scan ops 0 [])) i = Some (ti_statics ti)) by (rewrite nth_error_map, NT; auto).
+    rewrite <- SC, nth_error_map, N in X. simpl in X. inversion X. unfold ti_statics, statics. congruence. }
+  inversion ST as [[E1 E2 E3]]. unfold check_res_safe. rewrite E1, E2, E3.
+  (* prefix order *)
+  assert (PF : is_prefix_from 1 (ks_of i (g_log (tgt s))) = true).
+  { destruct (ok_deliv _ OK) as (rest & D & _). pose proof (SQ i) as S0. rewrite N in S0.
+    unfold ks_eff in S0. rewrite <- D, !filter_app, !map_app in S0. rewrite <- ks_of_pairs in S0.
+    eapply (prefix_from _ _ 1%nat). unfold nseq in S0. exact S0. }
+  rewrite PF, andb_true_r.
+  pose proof (RO _ _ N) as R0. unfold res_ok in R0. pose proof (TO _ _ N) as TK.
+  unfold hres_of. destruct (k_pc tm) as [| | | |r|] eqn:P; simpl; auto;
+    try (destruct (g_exit (tgt s)) as [[[? ?] ?]|]; destruct (g_left (tgt s)); destruct (k_kind tm); reflexivity).
+  destruct (k_kind tm) eqn:K.
+  - (* send_after *)
+    destruct (after_sent _ _ TK K) as (S1 & S2).
+    destruct r; try congruence; simpl.
+    + assert (IN : In (i, 1) (pairs (effs s))) by (eapply SCm; eauto; try lia; apply S2 in P; lia).
+      apply in_pairs in IN. destruct IN as (te & IN).
+      destruct (EO _ IN) as (_ & tm' & N' & _ & EK). simpl in N'. rewrite N in N'. inversion N'; subst tm'.
+      unfold eff_ok in EK; cbn [e_what e_time] in EK. destruct EK as (_ & _ & K2 & C).
+      destruct (SB _ _ IN eq_refl) as (SL & SE). cbn [e_time] in SL, SE.
+      pose proof (le_ceil (k_t0 tm + 1 * k_dur tm)).
+      assert (B0 : k_born tm <= k_t0 tm) by (destruct (BO _ _ N); lia).
+      assert (LE1 : forall x, te <= x -> k_born tm + k_dur tm <=? x = true) by (intros; apply N.leb_le; lia).
+      destruct (g_exit (tgt s)) as [[[r1 o1] te1]|] eqn:GE; destruct (g_left (tgt s)) as [tl|] eqn:GL; simpl;
+        rewrite ?(LE1 _ (SE _ _ _ eq_refl)), ?(LE1 _ (SL _ eq_refl)); auto.
+    + (* Err: nothing of this timer was ever handled *)
+      assert (S0 : k_sent tm = 0).
+      { destruct (N.eq_dec (k_sent tm) 1) as [X|X]; [apply S2 in X; congruence|lia]. }
+      assert (NOE : ks_of i (g_log (tgt s)) = []).
+      { unfold ks_of. rewrite filter_none_eff; auto. intros [[j k] t] IN. simpl.
+        destruct (Nat.eqb_spec i j); auto. subst j.
+        destruct (ok_log _ OK _ _ _ IN) as (_ & tm' & N' & _ & _ & K1 & K2 & _).
+        rewrite N in N'. inversion N'; subst. lia. }
+      rewrite NOE. simpl.
+      destruct (g_exit (tgt s)) as [[[? ?] ?]|]; destruct (g_left (tgt s)); reflexivity.
+  - subst r. simpl. destruct (g_exit (tgt s)) as [[[? ?] ?]|]; destruct (g_left (tgt s)); reflexivity.
+  - subst r. simpl. destruct (g_exit (tgt s)) as [[[? ?] ?]|]; destruct (g_left (tgt s)); reflexivity.
+  - subst r. simpl. destruct (g_exit (tgt s)) as [[[? ?] ?]|]; destruct (g_left (tgt s)); reflexivity.
+Qed.
+
+Lemma check_all_res_imp : forall log ex lf tis rs i,
+  check_all_res log ex lf i tis rs = true -> check_all_res_safe log ex lf i tis rs = true.
+Proof.
+  induction tis; destruct rs; simpl; intros; auto. apply andb_prop in H. destruct H as (H1 & H2).
+  rewrite (IHtis _ _ H2), andb_true_r. unfold check_res in H1. unfold check_res_safe.
+  repeat (apply andb_prop in H1; destruct H1 as (H1 & ?)).
+  repeat (apply andb_true_intro; split); auto. destruct h; auto.
+Qed.
+
+Theorem oracle_includes_results : forall pk ops o, check_C12 pk ops o = true -> check_C12_results ops o = true.
+Proof.
+  unfold check_C12, check_C12_results. intros pk ops o H.
+  repeat (apply andb_prop in H; destruct H as (H & ?)).
+  eapply check_all_res_imp; eauto.
+Qed.
